@@ -4,11 +4,16 @@
         (model = loosenModel before, then promoteModel when "promote")
    {"op":"bcast","shapes":[[dim…]…]}   dim = int | "symbol" | null
         -> none | [d,d,…]  (rendered like annotations)
-   {"op":"consistent","m":MODEL}
-        -> {"vocab":n,"certified":k,"rejected":["scope|op|output|declared|inputs…", …]}  (all scopes)
+   {"op":"consistent","m":MODEL}      (attribute lists may carry values: `name=v1,v2`, `in<i>=…`, `vdtype=`, `vshape=`)
+        -> {"vocab":n,"certified":k,"rejected":["scope|op|output|declared|inputs…", …],
+            "calls":n,"calls_certified":k,"rejected_calls":[…],"skipped":{op:count}}  (all scopes; both vocabularies;
+            every call of a model-local function is checked with the call site's argument annotations)
+   {"op":"infer","g":GRAPH}           (vinfo = run-time dtype/shape of the top-level values)
+        -> [[output name, inferred annotation] …] for the vocabulary nodes of the top scope
 -/
 import J2O.Model.ModelTreeJson
 import J2O.Model.C08
+import J2O.Model.C08Ops
 open Lean J2O.MT J2O.C08
 
 def firstDiff : List String → List String → Option (String × String)
@@ -25,7 +30,7 @@ partial def scopesOf (path : String) (outer : List (String × Annot)) (g : Graph
     n.bodies.zipIdx.flatMap fun (b, j) => scopesOf s!"{path}/{k}:{n.op}[{j}]" vi b)
 
 def rejectedOf (path : String) (g : Graph) : List String :=
-  (g.nodes.filter (fun n => inVocab n && !nodeConsistent g.vinfo n)).map fun n =>
+  (g.nodes.filter (fun n => inVocabAll n && !nodeOk g.vinfo n)).map fun n =>
     let outs := ",".intercalate (n.outsRaw.map fun y => y ++ "=" ++ (annotOf g.vinfo y).render)
     let ins := ",".intercalate (n.ins.map fun x => x ++ "=" ++ (annotOf g.vinfo x).render)
     s!"{path}|{n.op}|{outs}|{ins}"
@@ -54,12 +59,53 @@ def step (j : Json) : Except String String := do
   | "consistent" =>
     let m ← jModel (← j.getObjVal? "m")
     let scopes := scopesOf "main" [] m.graph ++ m.funcs.flatMap (fun f => scopesOf ("fn " ++ f.name) [] f.asGraph)
-    let stats := scopes.map (fun (_, g) => consistentStats g)
+    let stats := scopes.map (fun (_, g) => consistentStatsX g)
     let vocab : Nat := stats.foldl (fun a s => a + s.1) 0
     let cert : Nat := stats.foldl (fun a s => a + s.2) 0
     let rej := scopes.flatMap (fun (p, g) => rejectedOf p g)
-    pure (Json.mkObj [("vocab", toJson vocab), ("certified", toJson cert),
-                      ("rejected", Json.arr (rej.toArray.map Json.str))]).compress
+    let old : Nat := (scopes.map (fun (_, g) => (consistentStats g).1)).foldl (· + ·) 0
+    -- every call of a model-local function, with the call site's argument annotations
+    let calls := scopes.flatMap fun (p, g) => g.nodes.filterMap fun n =>
+      if n.domain == "" then none else
+      match m.funcs.find? (fun f => f.domain == n.domain && f.name == n.op) with
+      | none => none
+      | some f =>
+        let args := n.ins.map (annotOf g.vinfo)
+        some (callSiteConsistent f args,
+              s!"{p}|{n.domain}::{n.op}|" ++ ",".intercalate (args.map Annot.render) ++ "|formals " ++
+                ",".intercalate (f.inputs.map fun x => (annotOf f.vinfo x).render))
+    let skipped := scopes.flatMap fun (_, g) => (g.nodes.filter (fun n => !inVocabAll n && n.domain == "")).map (·.op)
+    let hist := skipped.foldl (fun (acc : List (String × Nat)) op =>
+      match acc.find? (·.1 == op) with
+      | some _ => acc.map (fun e => if e.1 == op then (e.1, e.2 + 1) else e)
+      | none => acc ++ [(op, 1)]) []
+    pure (Json.mkObj [("vocab", toJson vocab), ("certified", toJson cert), ("vocab_small", toJson old),
+                      ("rejected", Json.arr (rej.toArray.map Json.str)),
+                      ("calls", toJson calls.length),
+                      ("calls_certified", toJson (calls.filter (·.1)).length),
+                      ("rejected_calls", Json.arr ((calls.filter (!·.1)).map (Json.str ·.2)).toArray),
+                      ("skipped", Json.mkObj (hist.map fun (o, c) => (o, toJson c)))]).compress
+  | "infer" =>
+    let g ← jGraph (← j.getObjVal? "g")
+    let vi := g.vinfo
+    let out := g.nodes.filterMap fun n =>
+      match n.outsRaw with
+      | [y] =>
+        if inVocab n then
+          match vocabKind n with
+          | .unary x _ => some (y, (annotOf vi x).render)
+          | .binary a b _ =>
+            let A := annotOf vi a
+            let B := annotOf vi b
+            let d := match A.dims, B.dims with
+              | some la, some lb => broadcastDims [la, lb]
+              | _, _ => none
+            some (y, (⟨A.dtype, d⟩ : Annot).render)
+          | .other => none
+        else if inVocabX n then some (y, inferRender vi n)
+        else none
+      | _ => none
+    pure (Json.arr (out.toArray.map fun (y, r) => Json.arr #[Json.str y, Json.str r])).compress
   | _ => throw "unknown op"
 
 def main : IO Unit := do driverLoop (← IO.getStdin) step
